@@ -350,13 +350,20 @@ fn case_strategy(max_k: u32) -> impl Strategy<Value = Case> {
 pub fn def() -> PropDef {
     PropDef {
         id: "C02",
-        rule: "byte strings from three sources (raw and framing-shaped random bytes; valid encodings of generated values with bit flips / truncation / extension / rewritten length fields; nesting grammars prefix^k for Variant<->DataValue, Variant(Variant), DiagnosticInfo, arrays of variants; variant arrays with dimension lists whose product overflows 32 bits) decoded as every built-in type, header/chunk/codec types, all SupportedMessage ids and every generated service type under default and minimal decoding options, on a 2 MiB stack with a counting allocator; non-trivial = decoder returned Ok or consumed >= 8 bytes; distinct = distinct (input, target, options)",
+        rule: "byte strings from three sources (raw and framing-shaped random bytes; valid encodings of generated values with bit flips / truncation / extension / rewritten length fields; nesting grammars prefix^k for Variant<->DataValue, Variant(Variant), DiagnosticInfo, arrays of variants; variant arrays with dimension lists whose product overflows 32 bits) decoded as every built-in type, header/chunk/codec types, all SupportedMessage ids and every generated service type under default and minimal decoding options, on a 2 MiB stack with a counting allocator; non-trivial = decoder returned Ok or consumed >= 8 bytes; distinct = distinct (input, target, options); thorough adds a libFuzzer campaign (target c02_decode: type selector, options preset, bytes; no panic, no single allocation above 16 MiB)",
         assumptions: &[
             "allocation bound: peak growth during one decode <= 8 MiB + 64 x input length and no single request > 16 MiB",
             "a nesting of k >= 4 x max depth + 4 levels must be rejected (factor 4 is slack for how levels are counted)",
             "stack exhaustion kills the worker process and is reported by the supervising parent from the write-ahead case",
         ],
         abort_possible: true,
-        parts: |tier| vec![part("decode", tier.pick(40_000, 1_000_000), case_strategy(if tier == Tier::Quick { 30_000 } else { 300_000 }), check)],
+        parts: |tier| {
+            let mut v = vec![part("decode", tier.pick(40_000, 1_000_000), case_strategy(if tier == Tier::Quick { 30_000 } else { 300_000 }), check)];
+            if tier == Tier::Thorough {
+                // coverage-guided: selector byte (type), options preset, then the bytes to decode; no panic, no single allocation > 16 MiB
+                v.push(part_fuzz("libfuzzer_c02_decode", "c02_decode", 4_000_000, 1024));
+            }
+            v
+        },
     }
 }
